@@ -9,7 +9,8 @@
 (*   report                 ProgressLog.log_progress returned              *)
 (*   step_down(i, n) / step_up / step_forward(n)   SeedProgress calls      *)
 (*   process(t)             a (meta) tile was handed to the worker pool    *)
-(*   interrupt / continue(old)                                             *)
+(*   interrupt / continue(old)      (report events carry `stopping`: the  *)
+(*                                   graceful stop has been noticed)       *)
 (* every event carries the projected state observed after it:              *)
 (*   lp, lpl (level_progresses, level_progresses_level),                   *)
 (*   saved (identifier read back from the real progress file), nh (number  *)
@@ -41,8 +42,10 @@ Visible ==
   \/ /\ E.ev = "enter"
      /\ EnterRoot \/ Enter
      /\ stack'[Len(stack')].lvl = E.level /\ stack'[Len(stack')].box = E.box /\ stack'[Len(stack')].total = E.n
-  \/ /\ E.ev = "report"
-     /\ \E s \in BOOLEAN : Report(s) \/ FinalReport(s)
+  \/ /\ E.ev = "report" /\ ~E.stopping
+     /\ \E s \in BOOLEAN : Report(s) \/ (ctl = "final" /\ FinalReport(s))
+  \/ /\ E.ev = "report" /\ E.stopping                 \* running() has answered False
+     /\ \E s \in BOOLEAN : StopReport(s) \/ (ctl = "final_stop" /\ FinalReport(s))
   \/ /\ E.ev = "step_forward"
      /\ \/ NoIntersect /\ E.n = Top.total
         \/ SkipProcessed /\ E.n = 1
@@ -52,7 +55,7 @@ Visible ==
   \/ E.ev = "step_up" /\ StepUp
   \/ /\ E.ev = "process"
      /\ Process /\ handed'[Len(handed')] = E.t
-  \/ E.ev = "interrupt" /\ Interrupt
+  \/ E.ev = "interrupt" /\ (Interrupt \/ StoppedExit)
   \/ /\ E.ev = "continue"
      /\ Continue /\ old' = E.old
 
@@ -64,6 +67,8 @@ TraceNext ==
         /\ TLCSet(2, [TLCGet(2) EXCEPT ![tid] = Max(@, l)])
         /\ (l = Len(Tr)) => TLCSet(1, TLCGet(1) \cup {tid})
      \/ /\ Dedup
+        /\ UNCHANGED <<tid, l>>
+     \/ /\ E.ev = "report" /\ E.stopping /\ StopSilent     \* stop at a level that is not seeded: no report of its own
         /\ UNCHANGED <<tid, l>>
 
 TraceSpec == TraceInit /\ [][TraceNext]_tvars
